@@ -171,7 +171,7 @@ def run(prop, replay_file=None):
     if replay_file:
         cases = [json.load(open(replay_file))["case"]]
     else:
-        cases = gen_cases(2500 if t == "quick" else 9000, sd, t == "thorough")
+        cases = gen_cases(2500 if t == "quick" else 30000, sd, t == "thorough")
     w = tlc.scratch()
     try:
         tlc.stage_all(w)
